@@ -288,10 +288,20 @@ def main():
         emit_text_tables(out, sig, fmt, par)
         for extra in EXTRA:
             extra(repo, out)
+        # plug-ins: translator/xl_*.py, each defining emit(X, repo, out) where X is this module
+        # (use X.fail, X.pin, X.cstr, X.clist, X.get_class, X.get_funcs, X.write_if_changed, ...)
+        import glob
+        import importlib.util
+        here = os.path.dirname(os.path.abspath(__file__))
+        for path in sorted(glob.glob(os.path.join(here, "xl_*.py"))):
+            spec = importlib.util.spec_from_file_location(os.path.basename(path)[:-3], path)
+            mod = importlib.util.module_from_spec(spec)
+            spec.loader.exec_module(mod)
+            mod.emit(sys.modules[__name__], repo, out)
     except Untranslatable as ex:
         print("TRANSLATION FAILED (fail-closed): %s" % ex)
         sys.exit(2)
-    except (SyntaxError, OSError, KeyError) as ex:
+    except (SyntaxError, OSError, KeyError, AttributeError, IndexError, AssertionError) as ex:
         print("TRANSLATION FAILED (fail-closed): %r" % ex)
         sys.exit(2)
     if RECORD:
